@@ -595,9 +595,14 @@ orc_program_add_constant_str (OrcProgram *program, int size,
     program->vars[i].value.i = (orc_int32) program->vars[i].value.i;
   }
 
+  /* Literal operands (the parser names them "_<size>.<text>") share an
+   * existing constant of the same value; a constant declared under a name of
+   * its own must stay addressable by that name. */
   for(j=0;j<program->n_const_vars;j++){
     if (program->vars[ORC_VAR_C1 + j].value.i == program->vars[i].value.i &&
-        program->vars[ORC_VAR_C1 + j].size == size) {
+        program->vars[ORC_VAR_C1 + j].size == size &&
+        (name[0] == '_' ||
+         strcmp (program->vars[ORC_VAR_C1 + j].name, name) == 0)) {
       return ORC_VAR_C1 + j;
     }
   }
